@@ -41,7 +41,7 @@ def stepLaw (busy : List Nat) (prev : Obs) (op : Op) (res : Option Res) (now : O
     -- no attempt, failed or not, may alter process-wide tables that later loads depend on (the directive order)
     if now.dv != 0 then some "process-state-changed" else
     match op with
-    | .load c =>
+    | .load c | .restart c =>
       if validFor busy c then
         if r != .ok then some "valid-config-rejected"
         else if now.s1 != markerAt c 1 || now.s2 != markerAt c 2 then some "wrong-sites"
